@@ -7,15 +7,19 @@ import GluonModel.Compile
 import GluonModel.Proofs.Compile
 open GluonModel GluonModel.Core GluonModel.Bytecode
 
-/-- every function body of a program: the closures' bodies, at any depth -/
-partial def bodies : Expr → List Expr
+/-- every function body of a program (the closures' bodies, at any depth), with the function
+    variables in scope: the names the enclosing `Named::Recursive` groups bind to closures with
+    at least one parameter, and their arity -/
+partial def bodies (Φ : List (Sym × Nat)) : Expr → List (List (Sym × Nat) × Expr)
   | .const _ => [] | .ident _ => []
-  | .call f args => bodies f ++ (args.map bodies).flatten
-  | .data _ args => (args.map bodies).flatten
-  | .letE _ e b => bodies e ++ bodies b
-  | .letRec cs b => (cs.map fun c => c.2.2 :: bodies c.2.2).flatten ++ bodies b
-  | .match_ s alts => bodies s ++ (alts.map fun a => bodies a.2).flatten
-  | .cast e => bodies e
+  | .call f args => bodies Φ f ++ (args.map (bodies Φ)).flatten
+  | .data _ args => (args.map (bodies Φ)).flatten
+  | .letE _ e b => bodies Φ e ++ bodies Φ b
+  | .letRec cs b =>
+    let Φ' := (cs.filterMap fun c => if c.2.1.length > 0 then some (c.1, c.2.1.length) else none).reverse ++ Φ
+    (cs.map fun c => (Φ', c.2.2) :: bodies Φ' c.2.2).flatten ++ bodies Φ' b
+  | .match_ s alts => bodies Φ s ++ (alts.map fun a => bodies Φ a.2).flatten
+  | .cast e => bodies Φ e
 
 def globalsFor (gs : List Sym) (env : Env) : Option (List Val) :=
   gs.mapM (lookup env)
@@ -42,8 +46,10 @@ def handle : List Sexp → String
   | [.atom "fragcount", e] =>
     match parseExpr e with
     | some e =>
-      let bs := e :: bodies e
-      s!"({bs.length} {(bs.filter Proofs.Compile.inF).length})"
+      let bs := ([], e) :: bodies [] e
+      let f1 := (bs.filter fun p => Proofs.Compile.inF [] p.2).length
+      let f2 := (bs.filter fun p => Proofs.Compile.inF p.1 p.2).length
+      s!"({bs.length} {f1} {f2})"
     | none => "bad-request"
   | _ => "unimplemented"
 
